@@ -255,6 +255,10 @@ impl RuntimeData {
         self.global_vars.clear();
         self.call_stack.clear();
         self.open_upvalues = std::ptr::null_mut();
+        #[cfg(feature = "verif-hooks")]
+        crate::verif::emit(|| crate::verif::Event::Clear {
+            allocated: self.memory.allocated.load(std::sync::atomic::Ordering::Relaxed),
+        });
     }
 
     fn clear_objects(&mut self) {
@@ -292,6 +296,11 @@ impl RuntimeData {
 
     pub fn gc(&mut self) {
         debug!("• GC");
+        #[cfg(feature = "verif-hooks")]
+        crate::verif::emit(|| crate::verif::Event::GcBegin {
+            objects: self.object_list.len(),
+            allocated: self.memory.allocated.load(std::sync::atomic::Ordering::Relaxed),
+        });
         // mark all roots for collection
         let mut progress_tracker = Vec::with_capacity(self.value_stack.len());
         for val in self.value_stack.iter() {
@@ -389,6 +398,11 @@ impl RuntimeData {
                 }
             }
         }
+        #[cfg(feature = "verif-hooks")]
+        crate::verif::emit(|| crate::verif::Event::GcEnd {
+            objects: self.object_list.len(),
+            allocated: self.memory.allocated.load(std::sync::atomic::Ordering::Relaxed),
+        });
         debug!("✓ GC");
     }
 
